@@ -362,6 +362,50 @@ Theorem C19_alloc_maddr :
 Proof. exact maddr_parse_size. Qed.
 Print Assumptions C19_alloc_maddr.
 
+(* ---------------------------------------------------------------- WebRTC message framing and webrtc.proto *)
+Theorem C19_webrtc_frame_bounded :
+  forall b body rest, webrtc_extract b = WfFrame body rest ->
+  blen body <= WEBRTC_MAX_FRAME /\ exists pre, b = pre ++ body ++ rest /\ (1 <= length pre <= 10)%nat.
+Proof. exact webrtc_extract_frame. Qed.
+Print Assumptions C19_webrtc_frame_bounded.
+
+Theorem C19_webrtc_oversized_rejected_first :
+  forall pre rest, take_varint 10 (pre ++ rest) = Some (pre, rest) -> minimal pre = true ->
+  WEBRTC_MAX_FRAME < value pre mod 2 ^ 64 -> webrtc_extract (pre ++ rest) = WfErr.
+Proof. exact webrtc_extract_oversized. Qed.
+Print Assumptions C19_webrtc_oversized_rejected_first.
+
+Theorem C19_alloc_webrtc_proto :
+  forall b m, dec_wr b = Some m -> (olen (wr_message m) <= length b)%nat.
+Proof. exact dec_wr_size. Qed.
+Print Assumptions C19_alloc_webrtc_proto.
+
+Theorem C19_roundtrip_webrtc_message :
+  forall payload flag rest,
+  wf_bytes payload -> match flag with Some f => f < 4 | None => True end ->
+  let body := encode_fields (fields_wr (mkWr flag (if is_nil payload then None else Some payload))) in
+  blen body <= WEBRTC_MAX_FRAME ->
+  webrtc_extract (webrtc_encode_message payload flag ++ rest) = WfFrame body rest /\
+  webrtc_message body = Some (if is_nil payload then None else Some payload, flag).
+Proof. exact webrtc_roundtrip. Qed.
+Print Assumptions C19_roundtrip_webrtc_message.
+
+(* ---------------------------------------------------------------- yamux (third party): known finding class 1 *)
+(* intended: the credit of a stream opened by WindowUpdate|SYN is computed for every u32 credit.
+   Refuted on yamux 0.13.10 (`credit + DEFAULT_CREDIT` in u32): with overflow checks compiled in the
+   connection task panics, without them the credit wraps.  Witness corpus/C19/yamux_syn_credit.case *)
+Theorem C19_yamux_syn_credit_refuted :
+  exists credit, credit < 2 ^ 32 /\ u32_add_checked credit YAMUX_DEFAULT_CREDIT = None /\
+    yamux_syn_credit_overflow 2 [0; 1; 0; 1; 0; 0; 0; 1; 255; 255; 255; 255] = true.
+Proof. exact yamux_syn_credit_refuted. Qed.
+Print Assumptions C19_yamux_syn_credit_refuted.
+
+Theorem C19_yamux_syn_credit_partial :
+  forall credit, credit + YAMUX_DEFAULT_CREDIT < 2 ^ 32 ->
+  u32_add_checked credit YAMUX_DEFAULT_CREDIT = Some (credit + YAMUX_DEFAULT_CREDIT).
+Proof. exact yamux_syn_credit_partial. Qed.
+Print Assumptions C19_yamux_syn_credit_partial.
+
 (* ---------------------------------------------------------------- non-vacuity *)
 (* a FIND_NODE response with one peer, decoded with replication factor 20 *)
 Example C19_ex_kad :
